@@ -1591,7 +1591,10 @@ theorem filterCandset_keeps (a : CandsetArgs) (fp : Cell → Cell → Except PyE
     rw [← hv', ← hvr']
     exact hfp l' hl' r' hr'
   obtain ⟨fr, hfr, hcols, -, hrows⟩ := filterCandset_rows a fp fpb cpu c l r hc hlt hrt hv1 hv2 hv3 hv4 hv5 hv6 hv7 hv8 hv9
-    hv10 lval rval hl hr hfp' (chunksFor_flatten _ _ _ (by rw [candLabelled_length]; exact hclen))
+    hv10 lval rval
+    (fun cr hcr => by obtain ⟨x, hx, hk, hv⟩ := hl cr hcr; exact ⟨x, hx, Cell.pyEq_of_eq hk, hv⟩)
+    (fun cr hcr => by obtain ⟨x, hx, hk, hv⟩ := hr cr hcr; exact ⟨x, hx, Cell.pyEq_of_eq hk, hv⟩)
+    hfp' (chunksFor_flatten _ _ _ (by rw [candLabelled_length]; exact hclen))
   refine ⟨fr, hfr, hcols, ?_⟩
   intro cr hcr ls hls rs hrs hkl hkr
   obtain ⟨l', hl', hk', hv'⟩ := hl cr hcr
